@@ -53,7 +53,7 @@ def run(c):
     progs, hosts = os.path.join(d, "progs.jsonl"), os.path.join(d, "hosts.ndjson")
     n = 1 if c.quick else 25
     with open(progs, "w") as f:
-        for kind, count, *extra in [("typed", 50 * n, 2), ("corpus", 0), ("recursion", 10 * n, 4), ("deforder", 40 * n), ("groups", 120 * n), ("chains", 80 * n), ("bigint", 20 * n), ("nestgroup", 60 * n), ("groundindex2", 24 * n)]:
+        for kind, count, *extra in [("typed", 50 * n, 2), ("corpus", 0), ("recursion", 10 * n, 4), ("deforder", 40 * n), ("groups", 120 * n), ("chains", 80 * n), ("bigint", 20 * n), ("nestgroup", 60 * n), ("nestpick", 0), ("groundindex2", 24 * n)]:
             f.write(vf.gv(["gen-programs", kind, c.seed, count] + list(extra)).stdout)
     open(hosts, "w").write(vf.gv(["parse-hosts", progs]).stdout)
     out = os.path.join(d, "hosts.out")
